@@ -413,6 +413,9 @@ async fn handle(env: Rc<Env>, programs: Rc<Vec<HandlerProgram>>, mut req: Reques
     }
     let mut rb = Response::build(StatusCode::from_u16(prog.status).unwrap());
     rb.insert_header(("x-tag", format!("h{k}")));
+    if prog.force_close {
+        rb.force_close();
+    }
     for (hk, hv) in &prog.headers {
         rb.append_header((hk.as_str(), hv.as_str()));
     }
